@@ -388,9 +388,9 @@ func runImportTotality(tier string, deadline time.Time) (n int64, fails []map[st
 func bigImport() string {
 	st := vstore.New()
 	t := iavl.NewMutableTree(st, 0, false, iavl.NewNopLogger())
-	for i := 0; i < 6000; i++ {
-		_, _ = t.Set([]byte(fmt.Sprintf("key-%05d", (i*7919)%6000)), []byte(fmt.Sprintf("v%d", i)))
-		if i == 2999 {
+	for i := 0; i < bigImportLeaves; i++ {
+		_, _ = t.Set([]byte(fmt.Sprintf("key-%05d", (i*7919)%bigImportLeaves)), []byte(fmt.Sprintf("v%d", i)))
+		if i == bigImportLeaves/2 {
 			_, _, _ = t.SaveVersion()
 		}
 	}
@@ -471,8 +471,8 @@ func bigImport() string {
 			}
 			n++
 			return false
-		}); err != nil || n != 6000 {
-			return fmt.Sprintf("big import (compress=%v): iteration of the imported tree yields %d correct pairs of 6000 (%v)", compress, n, err)
+		}); err != nil || n != bigImportLeaves {
+			return fmt.Sprintf("big import (compress=%v): iteration of the imported tree yields %d correct pairs of %d (%v)", compress, n, bigImportLeaves, err)
 		}
 		// same future: one more write and commit on both trees
 		if !compress {
@@ -482,7 +482,7 @@ func bigImport() string {
 			if _, err := tr.Set([]byte("key-00007"), []byte("again")); err != nil {
 				return "big import: continuation Set: " + err.Error()
 			}
-			if _, _, err := tr.Remove([]byte("key-05999")); err != nil {
+			if _, _, err := tr.Remove([]byte("key-10499")); err != nil {
 				return "big import: continuation Remove: " + err.Error()
 			}
 		}
@@ -508,7 +508,7 @@ func init() {
 		r.Assumptions = []string{
 			"totality alphabet: Height in {-1,0,1,2}, Version in {-1,0,1,2,3} (import version 2), Key in {nil,a,b}, Value in {nil,v}; all sequences of length <= 2 (quick: restricted symbols at length 3; thorough: all 1.7M), valid streams of 1..5 leaves under 1 (thorough: 2) edits, hostile delta-encoded keys for the compressed codec",
 			"Add errors are ignored by the hostile caller (the stream continues); the final call is Commit or Close",
-			"more than one import batch (10 000 nodes) is covered by one fixed 6 000-leaf tree, not exhaustively",
+			"more than one import batch (10 000 nodes) is covered by one fixed 10 500-leaf tree, not exhaustively",
 		}
 		if r.Found != nil {
 			return r
@@ -537,7 +537,7 @@ func init() {
 			if f := bigImport(); f != "" {
 				rawViolation(c, r, f, nil)
 			}
-			r.Extra["big_import"] = "6000-leaf tree (2 versions, two importer batches) exported and imported, plain and compressed: hash, complete re-exported stream, iteration on a fresh instance, and the hash of one continuation commit are compared with the source tree"
+			r.Extra["big_import"] = "10500-leaf tree (2 versions, three importer batches) exported and imported, plain and compressed: hash, complete re-exported stream, iteration on a fresh instance, and the hash of one continuation commit are compared with the source tree"
 		}
 		return r
 	}
